@@ -1,10 +1,19 @@
-// Signature stub of pkg/Rust-VRF/vrf-func-ffi/src (absent submodule) — compilable stub for replay builds.
-// Every function here is EXTERNAL to govc (no body is ever verified or inlined).
+// Package vrf is an OFFLINE TEST STAND-IN for pkg/Rust-VRF/vrf-func-ffi/src
+// (a git submodule with a cgo/Rust backend that is not available in the
+// sandbox). It is only ever injected with `go test -overlay`; it is not part of
+// the repository build.
+//
+// It is deterministic and has no cryptographic meaning:
+//   - ring VRF output (ticket identifier) = SHA-256("ring" || signature)
+//   - a ring signature whose first byte is 0xFF is treated as an invalid proof
+//   - IETF signature = 32-byte output || 64 bytes padding (96 bytes),
+//     output = SHA-256(pk(sk) || context)
 package vrf
 
-type Verifier struct{ opaque uintptr }
-
-type Handler struct{ opaque uintptr }
+import (
+	"crypto/sha256"
+	"errors"
+)
 
 type VerifyItem struct {
 	Context   []byte
@@ -17,17 +26,102 @@ type VerifyResult struct {
 	Error  error
 }
 
-func NewVerifier(ring []byte, ringSize uint) (*Verifier, error) { panic("govc stub: external function not available offline") }
-func (v *Verifier) GetCommitment() ([]byte, error) { panic("govc stub: external function not available offline") }
-func (v *Verifier) RingVerify(input, aux, proof []byte) ([]byte, error) { panic("govc stub: external function not available offline") }
-func (v *Verifier) RingVerifyBatch(items []VerifyItem) ([]VerifyResult, error) { panic("govc stub: external function not available offline") }
-func (v *Verifier) Free() { panic("govc stub: external function not available offline") }
-func NewHandler(ring, secret []byte, ringSize, proverIdx uint) (*Handler, error) { panic("govc stub: external function not available offline") }
-func (h *Handler) Free() { panic("govc stub: external function not available offline") }
-func (h *Handler) IETFSign(context, message []byte) ([]byte, error) { panic("govc stub: external function not available offline") }
-func (h *Handler) VRFIetfOutput(sig []byte) ([]byte, error) { panic("govc stub: external function not available offline") }
-func (h *Handler) RingSign(context, message []byte) ([]byte, error) { panic("govc stub: external function not available offline") }
-func GetPublicKeyFromSecret(secret []byte) ([]byte, error) { panic("govc stub: external function not available offline") }
-func IETFSign(secret, context, message []byte) ([]byte, error) { panic("govc stub: external function not available offline") }
-func IETFVerify(context, message, signature, publicKey []byte) ([]byte, error) { panic("govc stub: external function not available offline") }
-func VRFIetfOutput(sig []byte) ([]byte, error) { panic("govc stub: external function not available offline") }
+type Verifier struct {
+	ring []byte
+	size uint
+}
+
+func NewVerifier(ring []byte, ringSize uint) (*Verifier, error) {
+	return &Verifier{ring: append([]byte(nil), ring...), size: ringSize}, nil
+}
+
+func (v *Verifier) Free() {}
+
+func (v *Verifier) GetCommitment() ([]byte, error) {
+	out := make([]byte, 0, 144)
+	seed := sha256.Sum256(append([]byte("commitment"), v.ring...))
+	for len(out) < 144 {
+		out = append(out, seed[:]...)
+		seed = sha256.Sum256(seed[:])
+	}
+	return out[:144], nil
+}
+
+func ringOutput(signature []byte) ([]byte, error) {
+	if len(signature) > 0 && signature[0] == 0xFF {
+		return nil, errors.New("vrf stub: bad ring proof")
+	}
+	h := sha256.Sum256(append([]byte("ring"), signature...))
+	return h[:], nil
+}
+
+func (v *Verifier) RingVerify(input, aux, signature []byte) ([]byte, error) {
+	return ringOutput(signature)
+}
+
+func (v *Verifier) RingVerifyBatch(items []VerifyItem) ([]VerifyResult, error) {
+	results := make([]VerifyResult, len(items))
+	for i, it := range items {
+		out, err := ringOutput(it.Signature)
+		results[i] = VerifyResult{Output: out, Error: err}
+	}
+	return results, nil
+}
+
+type Handler struct {
+	sk []byte
+}
+
+func NewHandler(ring, sk []byte, ringSize, proverIdx uint) (*Handler, error) {
+	return &Handler{sk: append([]byte(nil), sk...)}, nil
+}
+
+func (h *Handler) Free() {}
+
+func (h *Handler) VRFIetfOutput(signature []byte) ([]byte, error) {
+	return VRFIetfOutput(signature)
+}
+
+func (h *Handler) IETFSign(context, message []byte) ([]byte, error) {
+	return IETFSign(h.sk, context, message)
+}
+
+func GetPublicKeyFromSecret(sk []byte) ([]byte, error) {
+	h := sha256.Sum256(append([]byte("pk"), sk...))
+	return h[:], nil
+}
+
+func ietfOutput(pk, context []byte) []byte {
+	h := sha256.Sum256(append(append([]byte("ietf"), pk...), context...))
+	return h[:]
+}
+
+func IETFSign(sk, context, message []byte) ([]byte, error) {
+	pk, _ := GetPublicKeyFromSecret(sk)
+	sig := make([]byte, 96)
+	copy(sig, ietfOutput(pk, context))
+	m := sha256.Sum256(append(append([]byte("msg"), pk...), message...))
+	copy(sig[32:], m[:])
+	return sig, nil
+}
+
+func IETFVerify(context, message, signature, signerKey []byte) ([]byte, error) {
+	if len(signature) != 96 {
+		return nil, errors.New("vrf stub: bad signature length")
+	}
+	want := ietfOutput(signerKey, context)
+	m := sha256.Sum256(append(append([]byte("msg"), signerKey...), message...))
+	for i := 0; i < 32; i++ {
+		if signature[i] != want[i] || signature[32+i] != m[i] {
+			return nil, errors.New("vrf stub: bad ietf signature")
+		}
+	}
+	return want, nil
+}
+
+func VRFIetfOutput(signature []byte) ([]byte, error) {
+	if len(signature) < 32 {
+		return nil, errors.New("vrf stub: short signature")
+	}
+	return append([]byte(nil), signature[:32]...), nil
+}
